@@ -30,17 +30,19 @@ import (
 // cursor (attributed to the committing thread) + after every step of a dependent.
 
 type c05Job struct {
-	Graph   string         `json:"graph"`
-	Steps   map[string]int `json:"steps"` // integration name -> number of Converge calls of its thread (0: never starts)
-	Batch   int            `json:"batch"`
-	Grow    bool           `json:"grow"`              // an environment thread reveals the last block
-	DStart  uint64         `json:"dstart"`            // start block of the dependent "d" (default 1)
-	Blocks  int            `json:"blocks,omitempty"`  // chain length (default 3)
-	Conc    int            `json:"conc,omitempty"`    // concurrency of the source (default 1)
-	R2Start uint64         `json:"r2start,omitempty"` // start block of the referenced integration "r2" (default 1)
-	Pre     map[string]int `json:"pre,omitempty"`     // steps executed one after the other (config order) BEFORE the concurrent phase, by the same long-lived tasks
-	Reorg   int            `json:"reorg,omitempty"`   // > 0: the blocks above this fork block are replaced by a branch that is one block longer (by an environment thread of the concurrent phase, or, when Mid is set, right after the prefix)
-	Mid     map[string]int `json:"mid,omitempty"`     // steps executed one after the other right after a sequential reorganisation (a task with a warm header cache needs failing rounds before it can roll back)
+	Graph    string         `json:"graph"`
+	Steps    map[string]int `json:"steps"` // integration name -> number of Converge calls of its thread (0: never starts)
+	Batch    int            `json:"batch"`
+	Grow     bool           `json:"grow"`                // an environment thread reveals the last block
+	DStart   uint64         `json:"dstart"`              // start block of the dependent "d" (default 1)
+	Blocks   int            `json:"blocks,omitempty"`    // chain length (default 3)
+	Conc     int            `json:"conc,omitempty"`      // concurrency of the source (default 1)
+	R2Start  uint64         `json:"r2start,omitempty"`   // start block of the referenced integration "r2" (default 1)
+	Pre      map[string]int `json:"pre,omitempty"`       // steps executed one after the other (config order) BEFORE the concurrent phase, by the same long-lived tasks
+	Reorg    int            `json:"reorg,omitempty"`     // > 0: the blocks above this fork block are replaced by a branch that is one block longer (by an environment thread of the concurrent phase, or, when Mid is set, right after the prefix)
+	Mid      map[string]int `json:"mid,omitempty"`       // steps executed one after the other right after a sequential reorganisation (a task with a warm header cache needs failing rounds before it can roll back)
+	RIndex   string         `json:"rindex,omitempty"`    // the table of a referenced integration declares its own "index" list (c05IndexVariants; c = the referenced column)
+	RIndexAt string         `json:"rindex_at,omitempty"` // the only referenced integration whose table declares it ("" = every referenced integration)
 }
 
 func (j c05Job) blocks() int {
@@ -62,13 +64,14 @@ func init() {
 		ID:        "C05",
 		Level:     "model_checking",
 		Technique: "stateless model checking of the real pipeline (controlled scheduler over instrumented code, fake Postgres, simulated node): one controlled thread per integration of a filter_ref dependency graph on one source; all step-level orders and all I/O-level interleavings up to a preemption bound, including referenced integrations that never start; oracle evaluated at every commit of a dependent (attributed to the committing thread) and after every step",
-		Rule: "jobs = dependency graphs {D->R on a block field (log_addr; tx_to for transaction indexing), D->R on an event input, D->{R1,R2} (two referenced integrations, two tables; and/or), chain D2->D->R1, D->R1 beside an unrelated integration} x every subset of referenced integrations that never start x batch {1,2} x {static chain, one head-growth event} x dependent start {1,2}; threads run 1-3 steps each over a 3-block chain whose block m registers the values the dependent's logs of block m look up. " +
+		Rule: "jobs = dependency graphs {D->R on a block field (log_addr; tx_to for transaction indexing), D->R on an event input, D->{R1,R2} (two referenced integrations, two tables; and/or), chain D2->D->R1, D->R1 beside an unrelated integration} x every subset of referenced integrations that never start x batch {1,2} x {static chain, one head-growth event} x dependent start {1,2}; plus (a) the table of a referenced integration declares its own index list: {[c], [o], [o],[c], [c],[o], [c,o], [c desc]} (c = the referenced column, o = block_num) x {event input, log_addr, tx_to reference} with the referenced integration never starting and running, on both / either one of two referenced tables, on both tables of the chain and on a shared table, and (b) two dependents D,E on ONE column of ONE referenced integration (both by event input; one by event input and one by tx_to), both listing orders, the reference never starting / ahead of them / running beside them; threads run 1-3 steps each over a 3-block chain whose block m registers the values the dependent's logs of block m look up. " +
 			"Per job every schedule with <= 1 preemption at I/O granularity (thorough 2); switches at step boundaries are free. Non-trivial execution: a dependent committed a cursor move and emitted a row.",
 		Assumptions: []string{
 			"fake Postgres (h/simpg, READ COMMITTED) and simulated node (h/simeth) as in DESIGN.md §7",
 			"file configuration (config.ValidateFix fills Dependencies and filter_ref.table); integrations stored through the dashboard are not validated at all and are outside this check (reported separately)",
 			"the chain never uses a value in block m that is registered in a block > m, so 'referenced data complete for the block being processed' and 'final referenced table' give the same look-up results",
 			"liveness (the dependent eventually catches up) is not part of the property and not judged",
+			"the dependency graph of the oracle is read off the declared filter references alone (one edge per reference, whatever index lists the tables declare and however many dependents share a column); whether the look-up index itself exists is not judged",
 		},
 		Budget:        map[string]time.Duration{"quick": 140 * time.Second, "thorough": 850 * time.Second},
 		MinNontrivial: 1000,
@@ -196,6 +199,23 @@ func c05Decls(j c05Job) *c05Graph {
 			g.decls = []*world.Decl{r2, r1, e, d}
 		}
 		g.deps["d"], g.deps["e"] = []string{"r1"}, []string{"r2"}
+	case "fan", "fan-rev", "fan-tx", "fan-tx-rev":
+		// two dependents on ONE column of ONE referenced integration: D -> R1.who (event input) and E -> R1.who
+		// (event input; fan-tx: transaction indexing, block field tx_to); both listing orders
+		d.Inputs[0].Op, d.Inputs[0].Ref = "contains", refR1
+		e := &world.Decl{Name: "e", Table: "et", Event: "Transfer", Sources: src(1), Inputs: []world.Input{
+			{Name: "from", Type: "address", Indexed: true, Column: "c_from", Op: "contains", Ref: &world.Ref{Integration: "r1", Column: "who"}},
+			{Name: "to", Type: "address", Indexed: true, Column: "c_to"},
+			{Name: "value", Type: "uint256", Column: "c_value"}}}
+		if strings.HasPrefix(j.Graph, "fan-tx") {
+			e.Event, e.Inputs = "", nil
+			e.Fields = []world.Field{{Name: "tx_hash", Column: "tx_hash"}, {Name: "tx_to", Column: "tx_to", Op: "contains", Ref: &world.Ref{Integration: "r1", Column: "who"}}}
+		}
+		g.decls = []*world.Decl{r1, d, e}
+		if strings.HasSuffix(j.Graph, "-rev") {
+			g.decls = []*world.Decl{r1, e, d}
+		}
+		g.deps["d"], g.deps["e"] = []string{"r1"}, []string{"r1"}
 	case "twosrc": // D on src1 and src2 -> R1, which is configured for src1 only: on src2 D has nothing to follow
 		d.Inputs[0].Op, d.Inputs[0].Ref = "contains", refR1
 		d.Sources = append(d.Sources, world.SrcRef{Name: "src2", Start: 1})
@@ -223,7 +243,58 @@ func c05Decls(j c05Job) *c05Graph {
 	default:
 		panic("c05: unknown graph " + j.Graph)
 	}
+	g.declareIndexes(j.RIndex, j.RIndexAt)
 	return g
+}
+
+// c05IndexVariants: the "index" lists a referenced integration's table may declare itself, relative to the
+// referenced column c and another column of the table (block_num): the referenced column alone, another
+// column alone, both as two entries in either order, one composite entry, the referenced column with a direction.
+var c05IndexVariants = []string{"col", "other", "other,col", "col,other", "col+other", "col-desc"}
+
+func c05Index(variant, col string) [][]string {
+	const other = "block_num"
+	switch variant {
+	case "col":
+		return [][]string{{col}}
+	case "other":
+		return [][]string{{other}}
+	case "other,col":
+		return [][]string{{other}, {col}}
+	case "col,other":
+		return [][]string{{col}, {other}}
+	case "col+other":
+		return [][]string{{col, other}}
+	case "col-desc":
+		return [][]string{{col + " desc"}}
+	}
+	panic("c05: unknown index variant " + variant)
+}
+
+// declareIndexes gives the table of every referenced integration (or of the one named by `at`) its own index
+// list. What is referenced is read off the declarations (filter references of inputs and block fields).
+func (g *c05Graph) declareIndexes(variant, at string) {
+	if variant == "" {
+		return
+	}
+	refCol := map[string]string{}
+	for _, d := range g.decls {
+		for _, in := range d.Inputs {
+			if in.Ref != nil {
+				refCol[in.Ref.Integration] = in.Ref.Column
+			}
+		}
+		for _, f := range d.Fields {
+			if f.Ref != nil {
+				refCol[f.Ref.Integration] = f.Ref.Column
+			}
+		}
+	}
+	for _, d := range g.decls {
+		if col, ok := refCol[d.Name]; ok && (at == "" || at == d.Name) {
+			d.Index = c05Index(variant, col)
+		}
+	}
 }
 
 func (g *c05Graph) decl(name string) *world.Decl {
@@ -455,6 +526,40 @@ func c05Jobs(thorough bool) []c05Job {
 	pre("twosrc", st("r1", 2), st("d", 1, "d@src2", 1), 2)
 	add("twosrc-two", st("r1", 0, "r2@src2", 2, "d@src2", 2), 2, false, 1) // on src2 R2 advances, R1 has nothing
 	pre("twosrc-two", st("r1", 2, "r2", 1, "r2@src2", 2), st("d", 1, "d@src2", 1), 1)
+	// the referenced integration's table declares its own index list (on the referenced column, on another column,
+	// both, composite, with a direction): the dependency must be derived all the same
+	idx := func(graph, variant, at string, steps map[string]int, batch int) {
+		jobs = append(jobs, c05Job{Graph: graph, Steps: steps, Batch: batch, DStart: 1, RIndex: variant, RIndexAt: at})
+	}
+	for _, v := range c05IndexVariants {
+		for _, gr := range [][2]string{{"input", "r1"}, {"field", "r2"}, {"txfield", "r1"}} {
+			idx(gr[0], v, "", st(gr[1], 0, "d", 2), 1) // the referenced integration never starts
+			if gr[0] == "input" || v == "col" || thorough {
+				idx(gr[0], v, "", st(gr[1], 2, "d", 2), 2)
+			}
+		}
+		idx("two", v, "", st("r1", 0, "r2", 0, "d", 2), 1)
+		for _, at := range []string{"r1", "r2"} { // only one of two referenced tables declares it
+			if v == "col" {
+				idx("two", v, at, st("r1", 2, "r2", 0, "d", 2), 1)
+				idx("two", v, at, st("r1", 0, "r2", 2, "d", 2), 1)
+			}
+		}
+	}
+	idx("chain", "col", "", st("r1", 0, "d", 2, "d2", 2), 1) // rt1.who and dt.c_from
+	idx("chain", "col", "", st("r1", 2, "d", 0, "d2", 2), 1)
+	idx("shared", "col", "", st("r1", 2, "r2", 0, "d", 2), 1)
+	idx("shared", "col", "", st("r1", 0, "r2", 2, "d", 2), 1)
+	// two dependents on one column of one referenced integration, both listing orders: BOTH wait for it
+	for _, g := range []string{"fan", "fan-rev", "fan-tx", "fan-tx-rev"} {
+		add(g, st("r1", 0, "d", 2, "e", 2), 1, false, 1) // the reference never starts: neither may move
+		pre(g, st("r1", 2), st("d", 2, "e", 1), 1)
+		pre(g, st("r1", 2), st("d", 1, "e", 2), 2)
+	}
+	add("fan", st("r1", 1, "d", 1, "e", 1), 1, false, 1)
+	add("fan-tx-rev", st("r1", 1, "d", 1, "e", 1), 1, false, 1)
+	idx("fan", "col", "", st("r1", 0, "d", 2, "e", 2), 1)
+	idx("fan-tx-rev", "col", "", st("r1", 0, "d", 2, "e", 2), 1)
 	// largest jobs first: round-robin sharding then spreads them over the workers
 	sort.SliceStable(jobs, func(a, b int) bool { return c05Weight(jobs[a]) > c05Weight(jobs[b]) })
 	return jobs
@@ -493,7 +598,7 @@ type c05Prep struct {
 var c05PrepCache = map[string]*c05Prep{}
 
 func c05Prepare(j c05Job) (*c05Prep, error) {
-	key := fmt.Sprintf("%s/%d/%d/%d/%d/%d/%d", j.Graph, j.Batch, j.DStart, j.blocks(), j.Reorg, j.Conc, j.R2Start)
+	key := fmt.Sprintf("%s/%d/%d/%d/%d/%d/%d/%s/%s", j.Graph, j.Batch, j.DStart, j.blocks(), j.Reorg, j.Conc, j.R2Start, j.RIndex, j.RIndexAt)
 	p, ok := c05PrepCache[key]
 	if !ok {
 		p = &c05Prep{g: c05Decls(j)}
@@ -586,6 +691,9 @@ func c05Exec(j c05Job, p *c05Prep, ch vrt.Chooser, states *vrt.StateSet, trace, 
 		}
 	}
 	tag := j.Graph
+	if j.RIndex != "" {
+		tag += ":ridx=" + j.RIndex
+	}
 	cols := map[string][]string{}
 	// Scheduling granularity. Threads interact through the database (and the node, when the head
 	// grows) only, as far as this property is concerned. A thread is preempted only while it is
